@@ -247,6 +247,17 @@ def getattr_(eng, v, name, s):
         return [(eng.wrap_python(getattr(v.pymod, name), name), s)]
     if isinstance(v, ClassRef):
         return [(class_attr(eng, v.pycls, name, s), s)]
+    from .values import SuperRef
+    if isinstance(v, SuperRef):
+        mro = list(v.cls.__mro__)
+        recv_cls = v.recv.pycls if isinstance(v.recv, ClassRef) else None
+        for k in mro[1:]:
+            if name in k.__dict__:
+                raw = k.__dict__[name]
+                f = raw.__func__ if isinstance(raw, (staticmethod, classmethod)) else raw
+                qn = f"{k.__module__}.{k.__qualname__}.{name}"
+                return [(BoundMeth(v.recv, name, FuncRef(qn, f)), s)]
+        raise Unsupported(f"super().{name}")
     if isinstance(v, PyConst):
         if hasattr(v.obj, name):
             a = getattr(v.obj, name)
@@ -365,15 +376,15 @@ def obj_attr(eng, v, cls, name, s):
         if isinstance(raw, classmethod):
             return [(BoundMeth(ClassRef(pc), name, f), s)]
         return [(BoundMeth(v, name, f), s)]
+    if name == "__class__":
+        pc = reg.pyclass(cls)
+        if pc is not None:
+            return [(ClassRef(pc), s)]
     k = reg.class_kind(cls)
     if k:
         pyty = {"dict": dict, "list": list, "set": set}[k]
         if hasattr(pyty, name):
             return [(BoundMeth(v, name), s)]
-    if name == "__class__":
-        pc = reg.pyclass(cls)
-        if pc is not None:
-            return [(ClassRef(pc), s)]
     if reg.knows_class(cls):
         if not eng.spec:
             eng.raise_exc(s, AttributeError)
